@@ -66,14 +66,15 @@ type c17Cfg struct {
 	saveGap bool   // wait for the status thread's delayed save before Start (viper store candidate)
 	narch   int    // number of raw-data-block requests
 	long    bool   // tri only: blocks of 2.5 s, so that ONE block closes several 1-second trigger-rate periods
+	groups  int    // abaco only: number of channel groups in the packet stream (nchan channels each)
 	quiet   int    // ms of run time without control requests while files are written: the status thread's delayed
 	               // save (2 s after the last change of a saved setting) fires while core-loop status messages keep coming
 	seed    uint64
 }
 
 func (c c17Cfg) String() string {
-	return fmt.Sprintf("kind %s src %s nchan %d runms %d yield %d savegap %d narch %d long %d quiet %d", c.kind, c.src, c.nchan,
-		c.runMs, c.yield, b2i(c.saveGap), c.narch, b2i(c.long), c.quiet)
+	return fmt.Sprintf("kind %s src %s nchan %d runms %d yield %d savegap %d narch %d long %d quiet %d groups %d", c.kind, c.src, c.nchan,
+		c.runMs, c.yield, b2i(c.saveGap), c.narch, b2i(c.long), c.quiet, c.groups)
 }
 
 var c17Once sync.Once
@@ -160,20 +161,31 @@ func (c *c17Card) AvailableBuffer() ([]byte, time.Time, error) {
 	return out, time.Now(), nil
 }
 
-// scripted Abaco stream: one channel group, `fpp` frames per packet, `ppt` packets per reader tick
+// scripted Abaco stream: `groups` channel groups of `nchan` channels each (channel offsets 0, nchan, 2*nchan, ...; the same
+// sequence numbers and time stamps in every group), `fpp` frames per packet, `ppt` packets per group and reader tick
 type c17Abaco struct {
 	nchan, fpp, ppt int
+	groups          int
 	sn              uint32
 	k               uint64
 	ext             []byte // one external-trigger packet of /repo/testData/timer_packets.bin
 	tick            int
 }
 
-func (a *c17Abaco) packet() *packets.Packet {
-	pk := packets.NewPacket(10, 20, a.sn, 0) // NewData increments the sequence number
+// packets returns the next packet of every group
+func (a *c17Abaco) packets() []*packets.Packet {
+	out := make([]*packets.Packet, 0, a.groups)
+	for g := 0; g < a.groups; g++ {
+		out = append(out, a.packet(g))
+	}
 	a.sn++
-	pk.SetTimestamp(&packets.PacketTimestamp{T: 1000 + a.k*uint64(a.fpp)*8, Rate: 1e6})
 	a.k++
+	return out
+}
+
+func (a *c17Abaco) packet(g int) *packets.Packet {
+	pk := packets.NewPacket(10, 20, a.sn, g*a.nchan) // NewData increments the sequence number
+	pk.SetTimestamp(&packets.PacketTimestamp{T: 1000 + a.k*uint64(a.fpp)*8, Rate: 1e6})
 	d := make([]int16, a.nchan*a.fpp)
 	for f := 0; f < a.fpp; f++ {
 		v := int16((int(a.k)*a.fpp + f) % 50 * 20)
@@ -181,7 +193,7 @@ func (a *c17Abaco) packet() *packets.Packet {
 			v += 3000
 		}
 		for c := 0; c < a.nchan; c++ {
-			d[f*a.nchan+c] = v + int16(c)
+			d[f*a.nchan+c] = v + int16(c) + int16(3*g)
 		}
 	}
 	if err := pk.NewData(d, []int16{int16(a.nchan)}); err != nil {
@@ -192,9 +204,9 @@ func (a *c17Abaco) packet() *packets.Packet {
 
 func (a *c17Abaco) next() []*packets.Packet {
 	a.tick++
-	out := make([]*packets.Packet, 0, a.ppt+1)
+	out := make([]*packets.Packet, 0, a.ppt*a.groups+1)
 	for i := 0; i < a.ppt; i++ {
-		out = append(out, a.packet())
+		out = append(out, a.packets()...)
 	}
 	if a.ext != nil && a.tick%3 == 0 {
 		if p, err := packets.ReadPacket(bytes.NewReader(a.ext)); err == nil && p.IsExternalTrigger() {
@@ -261,8 +273,15 @@ func c17Run(cfg c17Cfg) string {
 		name = "SIMPULSESOURCE"
 		_ = sim
 	case "abaco":
-		a := &c17Abaco{nchan: nchan, fpp: 16, ppt: 40, ext: c17ExtPacket()}
-		sample := []*packets.Packet{a.packet(), a.packet(), a.packet(), a.packet()}
+		if cfg.groups < 1 {
+			cfg.groups = 1
+		}
+		a := &c17Abaco{nchan: nchan, groups: cfg.groups, fpp: 16, ppt: 40, ext: c17ExtPacket()}
+		nchan = nchan * cfg.groups
+		var sample []*packets.Packet
+		for i := 0; i < 4; i++ {
+			sample = append(sample, a.packets()...)
+		}
 		dastard.VerifC17Abaco(abaco, sample, a.next)
 		name = "ABACOSOURCE"
 	case "lancero":
@@ -579,8 +598,8 @@ func c17Gen(r *Rng, tier string, idx int) (string, func() string) {
 		var cfg c17Cfg
 		var sg int
 		var lg int
-		fmt.Sscanf(inner, "kind %s src %s nchan %d runms %d yield %d savegap %d narch %d long %d quiet %d", &cfg.kind, &cfg.src,
-			&cfg.nchan, &cfg.runMs, &cfg.yield, &sg, &cfg.narch, &lg, &cfg.quiet)
+		fmt.Sscanf(inner, "kind %s src %s nchan %d runms %d yield %d savegap %d narch %d long %d quiet %d groups %d", &cfg.kind, &cfg.src,
+			&cfg.nchan, &cfg.runMs, &cfg.yield, &sg, &cfg.narch, &lg, &cfg.quiet, &cfg.groups)
 		cfg.saveGap = sg != 0
 		cfg.long = lg != 0
 		return inner, func() string {
@@ -620,6 +639,13 @@ func c17Gen(r *Rng, tier string, idx int) (string, func() string) {
 	}
 	if cfg.src == "lancero" {
 		cfg.nchan = r.Pick(4, 6)
+	}
+	if cfg.src == "abaco" { // 1..3 channel groups; the race-detector runs always have at least two
+		cfg.groups = r.Pick(1, 2, 3)
+		if cfg.kind == "race" && cfg.groups == 1 {
+			cfg.groups = 2
+		}
+		cfg.nchan = r.Pick(1, 2)
 	}
 	in := cfg.String()
 	if cfg.kind == "race" {
